@@ -2,7 +2,7 @@ package main
 
 func init() {
 	propExtras["C11"] = func(cc *CheckCtx) {
-		cc.runBounded(BoundedSpec{Name: "map-model", PkgDir: "object", File: "c11_map_test.go", Test: "TestVerifBoundedMapModel", TimeoutS: 300,
+		cc.runBounded(BoundedSpec{Name: "map-model", PkgDir: "object", File: "c11_map_test.go", Test: "TestVerifBoundedMapModel", TimeoutS: 900,
 			Contract: "object.Map API (Set/Delete/Rest/Range/Append/Get/Len/Inspect/Equals) against a reference finite map in key order"})
 		cc.Assume = append(cc.Assume,
 			"C11: Cmp on map keys is assumed to be a total order returning -1/0/1 (axiom cmpOrder: proved for scalar keys by the C12 lemmas, known to fail across int/float beyond 2^53, assumed for container keys)",
